@@ -47,6 +47,13 @@ def generate(rng, tier, index):
     if recipe["family"] == "kissgp":
         recipe["grid_bounds"] = [[-0.3, 1.3]] * recipe["d"]  # dynamic grids are known finding F11 (C03)
     recipe.pop("active_dims", None) if rng.random() < 0.5 else None
+    lanczos = recipe["family"] == "default" and not recipe.get("batch") and rng.random() < 0.3
+    if lanczos:
+        # iterative regime: train covariance larger than max_cholesky_size, so the carried roots are Lanczos factors
+        recipe["n"] = rng.randint(10, 14)
+        recipe["lik"] = rng.choice(["gaussian", "fixed"])
+        # rough kernels keep the train covariance numerically full rank, so Lanczos runs all N iterations (square roots)
+        recipe["kernel"] = rng.choice(["matern05", "matern05", "matern15", "rbf", "sum"])
     faulty = index % 3 == 2
     allow = {"fast_pred_var", "detach_test_caches", "max_eager_kernel_size", "lazily_evaluate_kernels"}
     if recipe["family"] == "sgpr":
@@ -120,7 +127,19 @@ def generate(rng, tier, index):
             ops.append(gen_bad())
     ops.append(gen_pred())
     core.sticky_bundles(rng, ops)
-    return {"recipe": recipe, "ops": ops, "header": {"faulty": faulty}}
+    if lanczos:
+        # make sure the carried Lanczos roots are exercised: a fantasy of a fantasy predicted under fast_pred_var
+        f1, f2 = gen_fant(0), gen_fant(1)
+        p2 = gen_pred(2)
+        p2["bundle"] = [b for b in p2["bundle"] if b[0] != "fast_pred_var"] + [["fast_pred_var", {"state": True}]]
+        ops[1:1] = [f1, f2, p2]
+        extra = [["max_cholesky_size", {"value": 5}], ["cg_tolerance", {"value": 1e-10}], ["eval_cg_tolerance", {"value": 1e-10}], ["max_cg_iterations", {"value": 2000}], ["max_root_decomposition_size", {"value": 200}], ["max_lanczos_quadrature_iterations", {"value": 200}]]
+        for o in ops:
+            if "bundle" in o:
+                o["bundle"] = [b for b in o["bundle"] if b[0] not in ("max_cholesky_size", "fast_computations")] + extra
+            if o["op"] == "fantasize":
+                o["pattern"] = "same"
+    return {"recipe": recipe, "ops": ops, "header": {"faulty": faulty, "lanczos": lanczos}}
 
 
 # ----------------------------------------------------------------------------- execution
@@ -312,6 +331,9 @@ def execute(history):
         recipe = history["recipe"]
         fam = recipe["family"]
         tol = tolerance(recipe)
+        if history.get("header", {}).get("lanczos"):
+            tol = 1e-3  # CG / Lanczos caches carry solver error (observed <= 2e-6 on the unchanged tree)
+            out.stats["probe:lanczos_regime"] += 1
         torch.manual_seed(recipe["init_seed"])
         root = zoo.build_exact(recipe)
         zoo.randomise_parameters(root, recipe["init_seed"])
@@ -462,7 +484,7 @@ def execute(history):
                     out.stats["probe:fantasy_created:%s:%s%s" % (fam, recipe["lik"], ":batch" if recipe.get("batch") else "")] += 1
                     if new_node.depth >= 2:
                         out.stats["probe:fantasy_of_fantasy"] += 1
-                    check_fantasy_object(out, i, recipe, root_sd, new_node, op, tol)
+                    check_fantasy_object(out, i, recipe, root_sd, new_node, op, tol, lanczos=bool(history.get("header", {}).get("lanczos")))
             else:
                 raise core.HarnessError("unknown op " + k)
             out.transitions.add("%s|d%d->%s" % (fam, min(node.depth, 2), tag))
@@ -476,7 +498,7 @@ def execute(history):
     return out
 
 
-def check_fantasy_object(out, i, recipe, root_sd, node, op, tol):
+def check_fantasy_object(out, i, recipe, root_sd, node, op, tol, lanczos=False):
     """Checks on the object just returned: its data equal the documented concatenation, it shares nothing mutable
     with its source, and the caches it carries equal the same quantities recomputed from the full data."""
     fam = recipe["family"]
@@ -521,7 +543,7 @@ def check_fantasy_object(out, i, recipe, root_sd, node, op, tol):
     out.stats["oracle_comparisons"] += 1
     obs_f = {"mean_cache": mc_f.detach().reshape(mc_r.shape) if mc_f.numel() == mc_r.numel() else mc_f.detach()}
     obs_r = {"mean_cache": mc_r.detach()}
-    if torch.is_tensor(cc_f) and torch.is_tensor(cc_r):
+    if torch.is_tensor(cc_f) and torch.is_tensor(cc_r) and not lanczos:  # a Lanczos inverse root is low rank: R R^T is not the inverse
         pf = cc_f.detach() @ cc_f.detach().transpose(-1, -2)
         pr = cc_r.detach() @ cc_r.detach().transpose(-1, -2)
         if pf.shape != pr.shape:
@@ -531,7 +553,7 @@ def check_fantasy_object(out, i, recipe, root_sd, node, op, tol):
                 pass
         obs_f["inv_from_covar_cache"] = pf
         obs_r["inv_from_covar_cache"] = pr
-    bad, mx = compare.compare_obs(obs_f, obs_r, tol)
+    bad, mx = compare.compare_obs(obs_f, obs_r, tol * 10)  # an explicit inverse amplifies rounding by the conditioning
     if bad:
         q, diff, scale = bad[0]
         out.violate(
@@ -542,7 +564,7 @@ def check_fantasy_object(out, i, recipe, root_sd, node, op, tol):
             **cls,
         )
     else:
-        out.note_diff("carried_cache tol=%g" % tol, mx)
+        out.note_diff("carried_cache tol=%g" % (tol * 10), mx)
 
 
 # ----------------------------------------------------------------------------- render / simplify / budget
